@@ -15,7 +15,7 @@ EXPLANATION = (
     "ArgMatches::default(). R11.4 name twins agree: Command::_build_subcommand (per parse) and "
     "Command::_build_bin_names_internal (build()) compute a subcommand's usage_name / bin_name from the parent's bin_name "
     "and its display_name from the parent's display_name, and _build_subcommand assigns usage_name and bin_name on every "
-    "path (never skipped for an already-built subcommand). R11.5 clones are faithful: every Clone impl of a clap_builder type is derive-generated, or (hand-written) builds the value field by field from clone()/copies of the same fields of self, or is in the reviewed list (ValueParser: re-boxes the inner parser through clone_any) — a clone that drops build-time state (e.g. the key cache while the Built flag is copied) parses differently from its original. R11.6 a one-shot (Built-guarded) computation must not depend on a parameter that differs between its callers: whoever builds first would decide the result for everybody (memoisation without the parameter in the key). NOT decided: equality of results across histories."
+    "path (never skipped for an already-built subcommand). R11.5 clones are faithful: every Clone impl of a clap_builder type is derive-generated, or (hand-written) builds the value field by field from clone()/copies of the same fields of self, or is in the reviewed list (ValueParser: re-boxes the inner parser through clone_any) — a clone that drops build-time state (e.g. the key cache while the Built flag is copied) parses differently from its original. R11.6 a one-shot (Built-guarded) computation must not depend on a parameter that differs between its callers: whoever builds first would decide the result for everybody (memoisation without the parameter in the key). R11.7 who may write the names: Command::bin_name / display_name / usage_name are written only by the reviewed functions (explicit setters, argv[0] capture in try_get_matches_from_mut, and the twin builders) — e.g. build() seeding the root's bin_name would make every later parse ignore argv[0]. R11.8 the private clone-and-build of the flatten_help renderers is unconditional (it depends on has_visible_subcommands / is_flatten_help_set only, not on the Built state an earlier parse may have left). NOT decided: equality of results across histories."
 )
 TRUSTED = ["rustc MIR", "clapfacts", "call graph with trait fan-out"]
 ASSUMPTIONS = ["user closures (value parsers, deferred commands) are deterministic"]
@@ -276,3 +276,27 @@ def run(ctx):
         res.check(len(vals) <= 1, "R11.6", "build-parameter-differs|" + pname, where_.where(), "every caller of the one-shot build passes the same `%s`" % pname,
                   "the Built-guarded region of _build_self depends on `%s`, and callers pass different values (%s): what the first caller builds (e.g. the shape of the generated `help` subcommand) is kept for everybody, so a definition that was parsed before renders differently from a fresh one" % (
                       pname, "; ".join("%s from %s" % (k, sorted(set(v))[:4]) for k, v in sorted(vals.items(), key=lambda kv: str(kv[0])))))
+
+
+    # ---- R11.7 writer census of the name fields
+    OKW = {"bin_name": {"_build_bin_names_internal", "_build_subcommand", "bin_name", "set_bin_name", "try_get_matches_from_mut"},
+           "display_name": {"_build_bin_names_internal", "_build_subcommand", "display_name"},
+           "usage_name": {"_build_bin_names_internal", "_build_subcommand"}}
+    nw = 0
+    for b in fx.bodies(r"^clap_builder::"):
+        for f, okset in OKW.items():
+            for i, s_ in writes_field(b, f):
+                nw += 1
+                fn_ = b.q.split("::{")[0].rsplit("::", 1)[1]
+                res.check(fn_ in okset and "::command::Command::" in b.q, "R11.7", "name-writer|%s|%s" % (f, fn_), "%s in %s" % (sp_str(s_["sp"]), b.q), "%s written by %s" % (f, fn_),
+                          "Command::%s is also written by %s: names fixed outside the reviewed builders change what later parses and renderings show (e.g. argv[0] is ignored once bin_name is set)" % (f, b.q))
+    res.floor("R11.7", "writes of bin_name/display_name/usage_name", nw, 8)
+    # ---- R11.8 flatten_help renderers always work on their own freshly built clone
+    nbq = 0
+    for b in fx.bodies(r"^clap_builder::output::"):
+        for c in b.calls_to(r"Command::build$"):
+            nbq += 1
+            bg = [g for g in guard_strs(b, c.bb) if re.match(r"^[TF]:", g) and not re.match(r"^T:(has_visible_subcommands|is_flatten_help_set)\(self\.cmd\)$", g)]
+            res.check(not bg, "R11.8", "flatten-clone-build-unconditional|" + b.q.rsplit("::", 1)[1], c.where(), "clone().build() whenever flatten_help applies",
+                      "%s builds its private clone only under %s: whether names/help tree are complete then depends on what earlier parses did to the definition" % (b.q, bg))
+    res.floor("R11.8", "Command::build calls in the renderers", nbq, 2)
